@@ -105,8 +105,8 @@ ActFOK(code, x) ==
         lo  == FxFloorInt(FxAdd(p, FxSub(FxDivInt(FxOne, 2), FxShr(FxOne, 3))))       \* round(p - 1e-12)
         hi  == FxFloorInt(FxAdd(p, FxAdd(FxDivInt(FxOne, 2), FxShr(FxOne, 3))))       \* round(p + 1e-12)
         neg == x.s < 0
-    IN  IF x.s = 0 \/ FxLt(ax, FxShr(FxOne, 2))       \* zero, or so close to it (< 1e-8) that its sign is rounding noise:
-        THEN code \in {0, -1}                         \* +0.0 -> Buy(0), -0.0 -> Sell(0)
+    IN  IF x.s = 0 \/ (lo = 0 /\ code \in {0, -1})   \* strength 0: Buy(0) and Sell(0) are the same action (Action's own equality);
+        THEN code \in {0, -1}                         \* the sign of a value that rounds to strength 0 is not part of the rule
         ELSE IF neg THEN code \in {-1 - lo, -1 - hi} ELSE code \in {lo, hi}
 \* the same as a set of admissible codes
 ActFSet(x) == {code \in -256..255 : ActFOK(code, x)}
